@@ -3,10 +3,13 @@
 
 use vcore::report::*;
 
+mod c07;
+mod c12;
 mod c13;
 mod c14;
 mod c15;
 mod lex;
+mod project;
 mod seeds;
 
 fn main() {
@@ -15,6 +18,8 @@ fn main() {
     if let Some(p) = &args.replay {
         let c = load_replay(p);
         match c["kind"].as_str().unwrap_or("") {
+            "c07" => c07::replay(&c),
+            "c12" | "c12-negative" => c12::replay(&c),
             "c13" => c13::replay(&c),
             "c14" => c14::replay(&c),
             "c15" => c15::replay(&c),
@@ -22,6 +27,8 @@ fn main() {
         }
     }
     match args.property.as_str() {
+        "C07" => c07::run(&args),
+        "C12" => c12::run(&args),
         "C13" => c13::run(&args),
         "C14" => c14::run(&args),
         "C15" => c15::run(&args),
